@@ -120,16 +120,34 @@ def arity_probe(rec, c):
             if k < 0:
                 continue
             params = {"x%d" % i: 1 for i in range(k)}
-            c2 = Circuit(native_gates=c.native_gates)
-            c2.macros.update(c.macros)
-            c2.registers.update(c.registers)
-            c2.constants.update(c.constants)
-            c2.body.statements.append(GateStatement(macro, params))
-            rec.count("wrong-arity-probes")
-            o = lib.outcome(lib.expand_macros, c2)
-            if o[0] != "jaqal":
-                out.append(("wrong-arity-not-rejected", {"macro": name, "params": n, "given": k, "outcome": o[0],
-                                                         "info": str(o[1:])[:200]}))
+            # the call at the top of the body, inside a block, inside a loop, and inside the body of another macro (two deep)
+            for where in ("top", "block", "loop", "macro-body", "macro-body-2"):
+                from jaqalpaq.core import BlockStatement, LoopStatement, Macro
+
+                c2 = Circuit(native_gates=c.native_gates)
+                c2.macros.update(c.macros)
+                c2.registers.update(c.registers)
+                c2.constants.update(c.constants)
+                bad = GateStatement(macro, dict(params))
+                if where == "block":
+                    bad = BlockStatement(statements=[bad])
+                elif where == "loop":
+                    bad = LoopStatement(2, BlockStatement(statements=[bad]))
+                elif where.startswith("macro-body"):
+                    w1 = Macro("vfwrap1", [], BlockStatement(statements=[bad]))
+                    c2.macros["vfwrap1"] = w1
+                    bad = GateStatement(w1, {})
+                    if where == "macro-body-2":
+                        w2 = Macro("vfwrap2", [], BlockStatement(statements=[LoopStatement(1, BlockStatement(statements=[bad]))]))
+                        c2.macros["vfwrap2"] = w2
+                        bad = GateStatement(w2, {})
+                c2.body.statements.append(bad)
+                rec.count("wrong-arity-probes")
+                rec.count("wrong-arity-probes:" + where)
+                o = lib.outcome(lib.expand_macros, c2)
+                if o[0] != "jaqal":
+                    out.append(("wrong-arity-not-rejected:" + where, {"macro": name, "params": n, "given": k, "outcome": o[0],
+                                                                      "info": str(o[1:])[:200]}))
     return out
 
 
